@@ -736,9 +736,10 @@ impl Emitter {
   pub fn encode_bit_test_indirect(&self, mask: u8, ip_increment: usize, exec: &mut [u8]) -> usize {
     let mut len = emit_hl_indirect_partial_read(self.mem as usize, exec);
     len += emit_bit_test(X86Reg8::DL, mask, &mut exec[len..]);
-    len += emit_hl_indirect_partial_write(self.mem as usize, &mut exec[len..]);
+    // BIT only reads (HL): keep the new flags and restore the saved registers
+    len += emit_hl_indirect_partial_end(&mut exec[len..]);
     len += emit_ip_increment(ip_increment, &mut exec[len..]);
-    len + emit_cycle_increment(2, &mut exec[len..])
+    len + emit_cycle_increment(3, &mut exec[len..])
   }
 
   pub fn encode_swap(&self, reg: Register8, ip_increment: usize, exec: &mut [u8]) -> usize {
@@ -2295,6 +2296,21 @@ fn emit_hl_indirect_partial_write(memory_base: usize, exec: &mut [u8]) -> usize 
       fn_pointer[6],
       fn_pointer[7],
     0xff, 0xd0, // call rax
+    0x5a, // pop rdx
+    0x59, // pop rcx
+    0x58, // pop rax
+  ];
+  let length = code.len();
+  exec[..length].copy_from_slice(&code);
+  length
+}
+
+/// Finish a sequence started by emit_hl_indirect_partial_read without writing
+/// anything back to memory: store the updated flags into the saved AF and
+/// restore the saved registers.
+fn emit_hl_indirect_partial_end(exec: &mut [u8]) -> usize {
+  let code = [
+    0x88, 0x44, 0x24, 0x10, // mov [rsp + 16], al
     0x5a, // pop rdx
     0x59, // pop rcx
     0x58, // pop rax
